@@ -46,6 +46,9 @@ func Err(f *Func)                 { f.Err = true }
 func Variadic(f *Func)            { f.Variadic = true }
 func WithCallback(f *Func)        { f.Callback = true }
 func WithInfo(f *Func)            { f.Info = true }
+func LocationOf(decl string) func(*Func) {
+	return func(f *Func) { f.LocPC = decl }
+}
 
 // With returns a copy of f with a new id and extra options applied.
 func (f *Func) With(id string, opts ...func(*Func)) *Func {
